@@ -15,16 +15,50 @@ SCALAR = ("int", "enum", "bool", "float", "ptr")
 
 
 def construction_sites(fb, rec):
-    """Places where an object of record `rec` is created: variables, temporaries, members, new."""
+    """Places where an object of record `rec` is created with members left indeterminate: variables, temporaries,
+    members, new.  A site that initialises every member (aggregate initialisation with one initialiser per field,
+    value-initialisation `T{}` / `T()`, a copy of another object, the result of a function) does not count."""
+    nfields = len(fb.records[rec]["fields"]) if rec in fb.records else 0
+
+    def full(init):
+        """the initialiser defines every member"""
+        if not isinstance(init, dict):
+            return False
+        x = facts.strip_all_casts(init)
+        if x.get("k") == "initlist":
+            return len(x.get("inits", [])) >= nfields or not x.get("inits")  # all fields named, or {} (value-initialisation zeroes the rest)
+        if x.get("k") == "construct":
+            if x.get("copy") or x.get("move") or x.get("listinit"):
+                return True
+            if len(x.get("args", [])) == 1:
+                return full(x["args"][0])
+            return False
+        if x.get("k") == "call":
+            return True  # built by the callee (its own construction site is judged there)
+        return False
     out = []
     for f in fb.all_functions():
+        covered = set()
         for n in f.nodes():
             if n.get("k") == "decl":
                 for v in n.get("vars", []):
                     t = v.get("t") or {}
                     if t.get("rec") == rec and not t.get("ref") and t.get("k") == "rec":
-                        out.append((f, n.get("loc")))
-            elif n.get("k") == "construct" and n.get("rec") == rec:
+                        if full(v.get("init")):
+                            covered.update(y.get("id") for y in facts.walk(v["init"]))
+                        else:
+                            out.append((f, n.get("loc")))
+            elif n.get("k") == "return" and isinstance(n.get("e"), dict) and full(n["e"]) and \
+                    ((facts.strip_all_casts(n["e"]).get("t") or {}).get("rec") == rec or facts.strip_all_casts(n["e"]).get("rec") == rec):
+                covered.update(y.get("id") for y in facts.walk(n["e"]))
+        for n in f.nodes():
+            if n.get("id") in covered:
+                continue
+            if n.get("k") == "construct" and n.get("rec") == rec:
+                if n.get("copy") or n.get("move") or n.get("listinit") or n.get("args"):
+                    continue
+                out.append((f, n.get("loc")))
+            elif n.get("k") == "initlist" and n.get("rec") == rec and not (len(n.get("inits", [])) >= nfields or not n.get("inits")):
                 out.append((f, n.get("loc")))
             elif n.get("k") == "new" and rec.split("::")[-1] in (n.get("alloct") or "") and rec in (n.get("alloct") or ""):
                 out.append((f, n.get("loc")))
@@ -32,7 +66,7 @@ def construction_sites(fb, rec):
         if r["union"]:
             continue  # an alternative of a union: covered by the union rule (initialised alternative spans the union)
         for fld in r["fields"]:
-            if (fld["t"].get("rec") == rec) and fld["t"].get("k") == "rec":
+            if (fld["t"].get("rec") == rec) and fld["t"].get("k") == "rec" and not isinstance(fld.get("init"), dict):
                 out.append((None, fld["loc"]))
     return out
 
